@@ -593,12 +593,8 @@ func (g *eg) regex(allowEmpty bool) *Expr {
 	if v == "" && !allowEmpty {
 		v = "x"
 	}
-	if !allowEmpty && v[0] >= 0x80 {
-		// outside the =~ !~ = contexts the lexer mis-steps on "/" + multi-byte rune (C05's lexer finding): the script is rejected
-		v = "a" + v
-	}
 	e := &Expr{K: "re", V: v}
-	if !g.noParn && v != "" && v[0] < 0x80 && rapid.IntRange(0, 7).Draw(g.t, "reParens") == 0 {
+	if !g.noParn && v != "" && rapid.IntRange(0, 7).Draw(g.t, "reParens") == 0 {
 		e.P = 1 // (/re/): legal, the formatter drops the parentheses
 	}
 	return e
